@@ -40,6 +40,19 @@ TREES = {
                'main_dir': ('/proj/src/three.asm', ['three:', 'db 7']),
                'cwd_run': ('/proj/run/three.asm', ['three:', 'db 6'])},
         idir='/proj/inc'),
+    'twice_and_last': dict(
+        main='/proj/src/main.asm',
+        fixed={
+            '/proj/src/main.asm': ['include part.asm', 'mid:', 'li x6, K0', 'include part2.asm   # nested again', 'j mid', 'include "sub/leaf.asm"'],
+            '/proj/src/part.asm': ['p1:', 'addi x1, x0, K0'],
+            '/proj/src/part2.asm': ['include sub/leaf.asm', 'p2:', 'dw p1'],
+        },
+        var='sub/leaf.asm', including='/proj/src/main.asm',
+        cands={'adjacent': ('/proj/src/sub/leaf.asm', ['addi x3, x3, 1', 'dh 7']),
+               'idir': ('/proj/inc/sub/leaf.asm', ['addi x4, x4, 2', 'dh 8', 'dh 9']),
+               'main_dir': ('/elsewhere/sub/leaf.asm', ['db 9', 'db 9']),
+               'cwd_run': ('/proj/run/sub/leaf.asm', ['db 8', 'db 8'])},
+        idir='/proj/inc'),
 }
 
 
